@@ -103,7 +103,16 @@ class Prov:
         if "const" in op:
             if "promoted" in op["const"] and hasattr(self.fn, "d"):
                 return self._promoted(op["const"]["promoted"])
-            return const_term(op["const"])
+            t = const_term(op["const"])
+            if t[0] == "static":
+                # address of an immutable, interior-mutability-free static: a named constant behind a reference
+                cs = getattr(getattr(self.fn, "facts", None), "const_statics", {}).get(t[1])
+                if cs is not None:
+                    key = ("static-value", t[1])
+                    if key not in self._memo:
+                        self._memo[key] = ("ref", ("named", t[1], const_term(cs["value"])))
+                    return self._memo[key]
+            return t
         pl = op.get("copy") or op.get("move")
         return self.place(pl, _inprog)
 
